@@ -6,7 +6,7 @@ CONSTANTS
   ClearsLongData = TRUE
   RemoveOnClose = TRUE
   ReprepareFresh = TRUE
-  ClearsOnlyOwn = TRUE
+  ClearsOnlyOwn = FALSE
   KeepsEmptyLong = TRUE
 INVARIANTS P_Registry P_Agree
 VIEW view
